@@ -164,6 +164,17 @@ def check_rand(recipe) -> list[Fail]:
                 obj.bonds[0].btype = BondType.Double if obj.bonds[0].btype != BondType.Double else BondType.Single
             if hasattr(obj, "atomic_charges"):
                 obj.atomic_charges = np.asarray(obj.atomic_charges) * 0 + 0.125
+            if obj.n_atoms >= 2 and recipe.get("swap", True):
+                # ... and one atom is replaced by another (the FIRST atom goes, a new one is added at the end and bonded): the numbers
+                # of atoms is what it was, every later atom has moved up one place
+                from molli.chem import Atom
+                obj.del_atom(obj.atoms[0])
+                na_ = Atom(element=9, label="NEW")
+                if hasattr(obj, "atomic_charges"):
+                    obj.add_atom(na_, [1.5, 2.5, 3.5], 0.25)
+                else:
+                    obj.add_atom(na_, [1.5, 2.5, 3.5])
+                obj.connect(na_, obj.atoms[0])
             n0 = len(fails)
             roundtrip(obj, cls, kind, fails, recipe.get("entry", "loads"))
             for f_ in fails[n0:]:
